@@ -59,14 +59,24 @@ def wrap(d, shape):
     return (d + sh / 2.0) % sh - sh / 2.0
 
 
-def blob_image(rng, shape, nblobs=5, margin=0.3, sigma=(1.0, 1.8)):
-    """Compactly supported (to ~1e-12) positive image: Gaussian blobs well inside the frame."""
+def blob_image(rng, shape, nblobs=5, margin=0.3, sigma=(1.0, 1.8), min_sep=0.0):
+    """Compactly supported (to ~1e-12) positive image: isotropic Gaussian blobs well inside the frame.
+
+    With min_sep >= ~5 sigma the blobs do not overlap, so the central auto-correlation peak is a sum of
+    isotropic Gaussians (no tilt): the coarse correlation maximum is the sample nearest to the true shift.
+    """
     M, N = shape
     rr, cc = np.mgrid[:M, :N].astype(np.float64)
     im = np.zeros(shape)
-    for _ in range(nblobs):
+    centres = []
+    tries = 0
+    while len(centres) < nblobs and tries < 200:
+        tries += 1
         r0 = rng.uniform(margin * M, (1 - margin) * M)
         c0 = rng.uniform(margin * N, (1 - margin) * N)
+        if any((r0 - a) ** 2 + (c0 - b) ** 2 < min_sep**2 for a, b in centres):
+            continue
+        centres.append((r0, c0))
         sg = rng.uniform(*sigma)
         im += rng.uniform(0.4, 1.0) * np.exp(-((rr - r0) ** 2 + (cc - c0) ** 2) / (2 * sg**2))
     return im
